@@ -233,7 +233,9 @@ def r5(tree, rep, tier):
              "closed-with-mailbox-open": "closed delivered while our mailbox is still open at the server",
              "closed-before-rc-stopped": "closed delivered before the server connection was shut down",
              "verdict": "wrong close() verdict", "mood": "wrong mood sent with close",
-             "ignored": "a close request / server error does not put the wormhole into closing"}
+             "ignored": "a close request / server error does not put the wormhole into closing",
+             "reconnect-abandoned": "the client gives up reconnecting after an established session lost its connection: a pending "
+                                    "close() can never release the claim / close the mailbox, and reports ServerConnectionError"}
     for envname, s in sums.items():
         if envname == "postclose":
             continue
@@ -262,9 +264,32 @@ def r6(tree, rep):
     observers_terminated(tree, rep, "C08.R6")
 
 
+def r8(prog, rep):
+    """what the server must learn is sent BEFORE the application hears about the step: a status callback may call close()
+    re-entrantly, and a claim / open sent after that would follow the release / close that answers it (the server keeps the
+    claim although closed was delivered)"""
+    from ..automat_x import output_call_names
+    n = 0
+    for mname, acquire in (("Nameplate", "self._RC.tx_claim"), ("Mailbox", "self._RC.tx_open")):
+        m = prog.machine(mname)
+        for r in m.rows.values():
+            tx = [i for i, o in enumerate(r.outputs) if acquire in output_call_names(m, o)]
+            cb = [i for i, o in enumerate(r.outputs) if any(c in ("self._evolve_wormhole_status",) or c.startswith("self._B.") or c.startswith("self._W.")
+                                                          for c in output_call_names(m, o))]
+            if tx and cb:
+                n += 1
+                rep.check("C08.R8", "%s %s.%s sends %s before any output that calls back into the application" % (mname, r.src, r.inp, acquire.split(".")[-1]),
+                          max(tx) < min(cb), r.site, key="C08.R8:%s[%s].%s:wire-before-callback" % (mname, r.src, r.inp),
+                          what="%s %s.%s: outputs %s - the application is told before %s is sent; a close() from that callback releases "
+                               "first and acquires afterwards (the server keeps the resource)" % (mname, r.src, r.inp, r.outputs, acquire))
+    if n == 0:
+        raise AnalysisError("no row both acquires a server resource and reports to the application")
+
+
 def run(tree, rep, tier):
     prog = Program(tree)
     r_tables(prog, rep)
+    r8(prog, rep)
     r6(tree, rep)
     from .C01 import decrypt_raises_only_cryptoerror
     decrypt_raises_only_cryptoerror(tree, rep, "C08.R7")
